@@ -102,6 +102,16 @@ func cmdCheck(args []string) int {
 		fmt.Printf("ENGINE-ERROR property=%s %s\n", *prop, fmt.Sprintf(f, a...))
 		return 2
 	}
+	// 0. bounded stand-ins of this property run beside the proof work
+	bspecs := loadBounded(*verif, *prop)
+	bch := make(chan *boundedResult, len(bspecs)+1)
+	if *only == "" {
+		for _, b := range bspecs {
+			go func(b *BoundedSpec) { bch <- runBounded(*repo, *verif, *tier, *prop, b) }(b)
+		}
+	} else {
+		bspecs = nil
+	}
 	// 1. specs -> functions of this property
 	specs, err := LoadAllSpecs(*repo, *verif, "")
 	if err != nil {
@@ -328,6 +338,9 @@ func cmdCheck(args []string) int {
 		}
 	}
 	for name := range kfByObl {
+		if strings.HasPrefix(name, "bounded:") {
+			continue
+		}
 		if !kfSeen[name] && *only == "" {
 			viols = append(viols, viol{&Obligation{Name: name, Result: "missing"}, "known-finding obligation no longer generated (contract or function removed?)", nil})
 		}
@@ -406,6 +419,48 @@ func cmdCheck(args []string) int {
 		fmt.Printf("VIOLATION property=%s replay=%s obligation=%s (%s)%s\n", *prop, path, v.o.Name, v.why, suffix)
 		exit = 1
 	}
+	// bounded stand-ins: collected here, reported separately, never counted as obligations
+	var boundedEv []map[string]any
+	nBoundedFail := 0
+	for range bspecs {
+		br := <-bch
+		bev := map[string]any{"harness": br.Spec.Name, "what": br.Spec.What, "label": "BOUNDED stand-in, not a proof", "cmd": br.Cmd, "parts": br.Parts, "wall_s": round3(br.Seconds)}
+		if br.Err != "" {
+			path := filepath.Join(*verif, "replays", *prop, "bounded_"+sanitize(br.Spec.Name)+"_error.json")
+			writeJSON(path, map[string]any{"property": *prop, "harness": br.Spec.Name, "problem": br.Err, "cmd": br.Cmd, "output": truncate(br.Output, 20000)})
+			fmt.Printf("VIOLATION property=%s replay=%s bounded harness %s: %s no-failing-input-found\n", *prop, path, br.Spec.Name, br.Err)
+			nBoundedFail++
+			exit = 1
+			bev["error"] = br.Err
+		}
+		var failIDs []string
+		for _, f := range br.Fails {
+			mine := false
+			for _, p := range f.Props {
+				if p == *prop {
+					mine = true
+				}
+			}
+			if !mine {
+				continue
+			}
+			failIDs = append(failIDs, f.ID)
+			if k, ok := kfByObl["bounded:"+f.ID]; ok {
+				line := fmt.Sprintf("KNOWN-FINDING: property=%s %s [bounded:%s]", *prop, k.WhatFails, f.ID)
+				fmt.Println(line)
+				kfLines = append(kfLines, line)
+				continue
+			}
+			path := filepath.Join(*verif, "replays", *prop, "bounded_"+sanitize(f.ID)+".json")
+			writeJSON(path, map[string]any{"property": *prop, "harness": br.Spec.Name, "case": f.ID, "what_failed": f.Detail,
+				"replay": "the case id names the configuration and the operation sequence; re-run with: " + br.Cmd, "kind": "bounded stand-in (real code against a reference model)"})
+			fmt.Printf("VIOLATION property=%s replay=%s bounded case %s: %s\n", *prop, path, f.ID, truncate(f.Detail, 300))
+			nBoundedFail++
+			exit = 1
+		}
+		bev["failing_cases"] = failIDs
+		boundedEv = append(boundedEv, bev)
+	}
 	if disagreements > 0 {
 		fmt.Printf("ENGINE-ERROR property=%s %d solver disagreements\n", *prop, disagreements)
 		exit = 2
@@ -448,10 +503,15 @@ func cmdCheck(args []string) int {
 			"slow_obligations":         slow,
 			"lemmas":                   len(lemmas),
 			"phases_s":                 map[string]float64{"load": round3(loadS), "generate": round3(genS), "solve": round3(solveS)},
+			"bounded":                  boundedEv,
 		},
 		"assumptions": as,
 		"wall_s":      round3(time.Since(t0).Seconds()),
-		"violations":  len(viols) + len(fatalFns),
+		"violations":  len(viols) + len(fatalFns) + nBoundedFail,
+	}
+	if len(boundedEv) > 0 {
+		as = append(as, "bounded stand-ins (coverage.bounded) explore a stated finite space or a fixed sample of the real code against a reference model; they are not proofs and are not counted in obligations/discharged")
+		ev["assumptions"] = as
 	}
 	if !*noEvidence && os.Getenv("GOVC_NOEVIDENCE") == "" {
 		os.MkdirAll(filepath.Join(*verif, "evidence"), 0o755)
@@ -468,7 +528,17 @@ func cmdCheck(args []string) int {
 		}
 	}
 	fmt.Printf("property=%s tier=%s functions=%d obligations=%d discharged=%d covers=%d/%d known_findings=%d violations=%d wall=%.1fs\n",
-		*prop, *tier, len(vcs), nObl, nDis, nCoverSat, nCover, len(kfLines), len(viols)+len(fatalFns), time.Since(t0).Seconds())
+		*prop, *tier, len(vcs), nObl, nDis, nCoverSat, nCover, len(kfLines), len(viols)+len(fatalFns)+nBoundedFail, time.Since(t0).Seconds())
+	for _, be := range boundedEv {
+		n, ex := 0, 0
+		for _, p := range be["parts"].([]boundedPart) {
+			n += p.Evaluated
+			if p.Exhaustive {
+				ex += p.Evaluated
+			}
+		}
+		fmt.Printf("bounded stand-in %s: %d cases on the real code (%d of them in exhaustively enumerated parts), failing=%v\n", be["harness"], n, ex, be["failing_cases"])
+	}
 	return exit
 }
 
